@@ -1151,6 +1151,11 @@ func refsCmd(a Args) {
 	}
 	s := newSink(a.Out)
 	defer s.close()
+	if a.Replay != "" {
+		replayRefs(s, a.Replay)
+		writeStats(a.Out, s, nil)
+		return
+	}
 	g := hx.NewGen(a.Seed)
 	streams := a.Streams
 	if streams == "valid,random" { // the global default
@@ -1166,9 +1171,23 @@ func refsCmd(a Args) {
 			for i := 0; i < a.N*10*mult; i++ {
 				groupLink(s, g)
 			}
+			for i := 0; i < a.N*mult; i++ {
+				groupSched(s, g)
+			}
 		case "behave":
 			for i := 0; i < a.N*mult/2; i++ {
 				groupBehave(s, g)
+			}
+			for i := 0; i < a.N*mult/4; i++ {
+				groupNSBehave(s, g)
+			}
+		case "sched":
+			for i := 0; i < a.N*mult; i++ {
+				groupSched(s, g)
+			}
+		case "nsbehave":
+			for i := 0; i < a.N*mult/4; i++ {
+				groupNSBehave(s, g)
 			}
 		case "shared":
 			groupShared(s, g)
